@@ -132,19 +132,19 @@ def _hd():
 
             def _DAGNode__pre_assign_parents(self, new_parents):
                 if HD.ctl.fp == "pre":
-                    raise HookFault("pre-parents")
+                    raise core.hook_exc(getattr(HD.ctl, "op", None), "pre-parents")
 
             def _DAGNode__post_assign_parents(self, new_parents):
                 if HD.ctl.fp == "post":
-                    raise HookFault("post-parents")
+                    raise core.hook_exc(getattr(HD.ctl, "op", None), "post-parents")
 
             def _DAGNode__pre_assign_children(self, new_children):
                 if HD.ctl.fc == "pre":
-                    raise HookFault("pre-children")
+                    raise core.hook_exc(getattr(HD.ctl, "op", None), "pre-children")
 
             def _DAGNode__post_assign_children(self, new_children):
                 if HD.ctl.fc == "post":
-                    raise HookFault("post-children")
+                    raise core.hook_exc(getattr(HD.ctl, "op", None), "post-children")
 
         _HD = HD
     return _HD
@@ -205,6 +205,7 @@ class World:
         k = op[0]
         ctl = self.ctl
         ctl.fp = ctl.fc = "none"
+        ctl.op = op     # the class of the exception a raising hook throws is a function of the op
         if k == "P":
             v, a = self.ctl.reg[op[1]], self.arg(op[2])
             ctl.fp = op[3]
